@@ -207,6 +207,9 @@ pub struct Inner {
     pub degraded: bool,
     pub violations: Vec<crate::report::Violation>,
     pub notes: Vec<String>,
+    /// mutating file-system calls on the scratch directory issued by a thread the
+    /// scheduler does not manage (the code under test started a thread of its own)
+    pub unmanaged_fs: Vec<String>,
     pub flags: u32,
     need_supervisor: bool,
     supervisor_deciding: bool,
@@ -385,6 +388,18 @@ pub fn fs_gate(tid: usize, call: &FsCall) -> Fault {
         _ => Res { bits: 0, files: vec![call.name.clone()], files_r: vec![] },
     };
     gate(tid, Pending { point: Point::Fs(call.kind.clone(), call.name.clone()), res, call: Some(call.clone()) })
+}
+
+/// Called by the interposition for a mutating call on a tracked file issued by
+/// an unmanaged thread while an execution is active.
+pub fn note_unmanaged_fs(what: String) {
+    if let Ok(mut g) = INNER.lock() {
+        if let Some(i) = g.as_mut() {
+            if i.unmanaged_fs.len() < 16 {
+                i.unmanaged_fs.push(what);
+            }
+        }
+    }
 }
 
 pub fn fs_done(tid: usize, call: FsCall, ret: i64, errno: i32) {
@@ -596,6 +611,7 @@ pub struct ExecResult {
     /// per step: index into `trace` at the moment of the decision
     pub trace_pos: Vec<usize>,
     pub hung: Option<String>,
+    pub unmanaged_fs: Vec<String>,
 }
 
 pub type ThreadBody = Box<dyn FnOnce() + Send + 'static>;
@@ -824,6 +840,7 @@ pub fn run_execution(bodies: Vec<(ThreadKind, ThreadBody)>, chooser: &mut dyn Ch
         pendings: inner.pendings,
         trace_pos: vec![],
         hung,
+        unmanaged_fs: inner.unmanaged_fs,
     }
 }
 
